@@ -886,3 +886,173 @@ Proof.
     change (feats_of (feats_list [])) with no_features in M. change (feats_bad []) with false in M. rewrite M. reflexivity.
 Qed.
 Print Assumptions tie_sram_ports.
+
+(* ---------------------------------------------------------------- csr.wishbone.WishboneCSRBridge *)
+
+(* csr_bus may be handed over flipped or not (the code unflips it); the window it adds afterwards is the opaque step *)
+Theorem tie_wbcsr_ports : forall fl (i : csr_Interface) dw, gran_ok dw ->
+  let caw := gen_csr_Interface_get_addr_width i in
+  let cdw := gen_csr_Interface_get_data_width i in
+  rmap (fun c => (absd (csr_wishbone_WishboneCSRBridge_ports c), wb_attr (csr_wishbone_WishboneCSRBridge_port_wb_bus c)))
+       (gen_csr_wishbone_WishboneCSRBridge_init (fl, i) dw None) =
+  cv (fun p => ([("wb_bus", AIface p [])], signature_of_port p)) (wbcsr_bus caw cdw (gran_arg dw)).
+Proof.
+  intros fl i dw G caw cdw. unfold gen_csr_wishbone_WishboneCSRBridge_init, wbcsr_bus. cbv zeta.
+  unfold gen_csr_Interface_get_addr_width, gen_csr_Interface_get_data_width in caw, cdw.
+  cbn [fst snd]. fold caw cdw.
+  replace (negb (negb (fst (if fl then (negb fl, i) else (fl, i))))) with false by (destruct fl; reflexivity).
+  rewrite width_in_ok. destruct (wb_width_ok cdw) eqn:Pc; cbn [negb]; [|reflexivity].
+  set (d5 := if is_none dw then VInt cdw else dw).
+  assert (D : exists d, d5 = VInt d /\ d = match gran_arg dw with Some x => x | None => cdw end).
+  { destruct dw; try contradiction; cbn; eauto. }
+  destruct D as (d & -> & Ed). rewrite <- Ed. clear Ed G dw. cbn [zof].
+  unfold exact_log2 at 1, MW.exact_log2 at 1.
+  destruct (is_pow2 (d / cdw)) eqn:P; cbn [bind MW.bind]; [|reflexivity].
+  set (k := Z.log2 (d / cdw)).
+  destruct (gen_wishbone_Signature_init _ _ _ _) as [s|e] eqn:E; cbn [bind rmap].
+  - pose proof (wb_init_ok _ _ (VInt cdw) _ _ I E) as M. destruct (wb_create_ok _ _ (VInt cdw) _ _ I E) as (x & C & Ax).
+    cbn [gran_arg] in M. change (feats_of (feats_list [])) with no_features in M. change (feats_bad []) with false in M.
+    rewrite M, C. cbn [bind MW.bind].
+    destruct (construct_wb_accepts _ _ _ _ _ _ M) as (_ & _ & _ & _ & _ & S). cbv zeta in S.
+    destruct (caw <=? 0) eqn:K.
+    + rewrite mm_init_bad by (unfold mm_bad; cbn [is_int zof negb orb]; rewrite K; reflexivity).
+      replace (caw =? Z.max 1 (Z.max 0 (caw - k) + k)) with false by lia. reflexivity.
+    + destruct (mm_init_ok (VInt caw) (VInt cdw) (VInt 0)) as (m & Hm & M1 & M2 & _).
+      { unfold mm_bad. cbn [is_int zof negb orb]. apply wb_width_ok_spec in Pc. lia. }
+      rewrite Hm. cbn [bind]. rewrite tie_wb_iface_setter.
+      unfold gen_wishbone_Interface_get_addr_width, gen_wishbone_Interface_get_data_width, gen_wishbone_Interface_get_granularity.
+      cbn [wishbone_Interface_signature snd]. pose proof Ax as Ax'. rewrite S in Ax'. injection Ax' as A1 A2 A3 _.
+      rewrite A1, A2, A3, M1, M2. cbn [zof]. rewrite Z.eqb_refl. cbn [negb].
+      unfold exact_log2. rewrite P. cbn [bind]. fold k.
+      destruct (caw =? Z.max 1 (Z.max 0 (caw - k) + k)); cbn [negb bind opaque_step rmap cv]; [|reflexivity].
+      unfold wb_attr. cbn [csr_wishbone_WishboneCSRBridge_port_wb_bus csr_wishbone_WishboneCSRBridge_ports wishbone_Interface_signature fst snd xorb].
+      rewrite Ax. reflexivity.
+  - destruct (wb_init_err _ _ (VInt cdw) _ _ I E) as (e' & M & <-). cbn [gran_arg] in M.
+    change (feats_of (feats_list [])) with no_features in M. change (feats_bad []) with false in M. rewrite M. reflexivity.
+Qed.
+Print Assumptions tie_wbcsr_ports.
+
+(* ================================================================ event.Monitor *)
+
+Lemma src_init_ok t s : gen_event_Source_Signature_init t = Ok s -> mk_src (trg_arg t) = MW.Ok (abs_src s).
+Proof.
+  intro H. pose proof (tie_src_init t) as T. rewrite H in T. cbn [rmap] in T.
+  destruct (mk_src _) as [x|e]; cbn [cv] in T; [|discriminate T]. apply Ok_inj in T. unfold id in T. subst x. reflexivity.
+Qed.
+Lemma src_init_err t e : gen_event_Source_Signature_init t = Err e ->
+  exists e', mk_src (trg_arg t) = MW.Err e' /\ cv_exn e' = e.
+Proof.
+  intro H. pose proof (tie_src_init t) as T. rewrite H in T. cbn [rmap] in T.
+  destruct (mk_src _) as [x|e']; cbn [cv] in T; [discriminate T|]. injection T as T. eauto.
+Qed.
+Lemma src_create_ok t s : gen_event_Source_Signature_init t = Ok s ->
+  exists x, gen_event_Source_Signature_create s = Ok {| event_Source_signature := (false, x) |} /\ abs_src x = abs_src s.
+Proof.
+  intro H. pose proof (src_init_ok _ _ H) as M.
+  pose proof (tie_src_create s) as T. rewrite (create_same (ASrc _) _ M) in T. cbn [cv] in T.
+  destruct (gen_event_Source_Signature_create s) as [[[f x]]|e]; cbn [rmap] in T; [|discriminate T].
+  apply Ok_inj, pair_inj in T. cbn [fst snd event_Source_signature] in T. destruct T as [-> T2]. eauto.
+Qed.
+
+(* Source.event_map = m: nothing is checked besides the type; freeze() is the opaque step *)
+Theorem tie_src_iface_setter : forall i m o, gen_event_Source_set_event_map i m o = opaque_step o.
+Proof. intros i m [e|]; reflexivity. Qed.
+Print Assumptions tie_src_iface_setter.
+
+Definition monitor_view (n : Z) (p : port) : list (string * amem) * sigv :=
+  ([("src", AIface p []); ("enable", APort FIn n false []); ("pending", APort FIn n false []);
+    ("clear", APort FIn n false [])], signature_of_port p).
+
+Theorem tie_monitor_ports : forall em t o,
+  rmap (fun c => (absd (event_Monitor_ports c), src_attr (event_Monitor_port_src c))) (gen_event_Monitor_init em t o) =
+  match monitor_src (trg_arg t) with
+  | MW.Ok p => match o with Some e => Err e | None => Ok (monitor_view (event_EventMap_size em) p) end
+  | MW.Err e => Err (cv_exn e)
+  end.
+Proof.
+  intros em t o. unfold gen_event_Monitor_init, monitor_src.
+  destruct (gen_event_Source_Signature_init t) as [s|e] eqn:E; cbn [bind rmap].
+  - pose proof (src_init_ok _ _ E) as M. destruct (src_create_ok _ _ E) as (x & C & Ax).
+    rewrite M. cbv zeta. rewrite C. cbn [bind MW.bind]. rewrite tie_src_iface_setter.
+    destruct o as [e|]; cbn [opaque_step bind rmap]; [reflexivity|].
+    unfold src_attr, monitor_view. cbn [event_Monitor_port_src event_Monitor_ports event_Source_signature fst snd xorb].
+    rewrite Ax. reflexivity.
+  - destruct (src_init_err _ _ E) as (e' & M & <-). rewrite M. reflexivity.
+Qed.
+Print Assumptions tie_monitor_ports.
+
+(* ================================================================ csr.event.EventMonitor *)
+
+Lemma src_create_abs x t' : abs_src x = SSrc t' ->
+  exists y, gen_event_Source_Signature_create x = Ok {| event_Source_signature := (false, y) |} /\ abs_src y = SSrc t'.
+Proof.
+  intro A. pose proof (tie_src_create x) as T. rewrite A in T. cbn [create mk_src cv] in T.
+  destruct (gen_event_Source_Signature_create x) as [[[f y]]|e]; cbn [rmap] in T; [|discriminate T].
+  apply Ok_inj, pair_inj in T. cbn [fst snd event_Source_signature] in T. destruct T as [-> T2]. eauto.
+Qed.
+Lemma csr_create_abs x a d : abs_csr x = SCsr {| c_addr_width := a; c_data_width := d |} -> 0 < a -> 0 < d ->
+  exists y, gen_csr_Signature_create x = Ok {| csr_Interface_signature := (false, y) |} /\
+            abs_csr y = SCsr {| c_addr_width := a; c_data_width := d |}.
+Proof.
+  intros A Pa Pd. pose proof (tie_csr_create x) as T. rewrite A in T. cbn [create c_addr_width c_data_width] in T.
+  unfold mk_csr in T. replace (a <=? 0) with false in T by lia. replace (d <=? 0) with false in T by lia. cbn [cv] in T.
+  destruct (gen_csr_Signature_create x) as [[[f y]]|e]; cbn [rmap] in T; [|discriminate T].
+  apply Ok_inj, pair_inj in T. cbn [fst snd csr_Interface_signature] in T. destruct T as [-> T2]. eauto.
+Qed.
+
+Lemma ceil_log2_nonneg n : 0 <= ceil_log2 n.
+Proof. unfold ceil_log2. destruct (n <=? 1); [lia|apply Z.log2_up_nonneg]. Qed.
+
+Definition evmon_view (ps : list port) : res (list (string * amem) * sigv * sigv) :=
+  match ps with
+  | [b; s] => Ok ([("src", AIface s []); ("bus", AIface b [])], signature_of_port b, signature_of_port s)
+  | _ => Err OtherError
+  end.
+
+(* every opaque step returns: the two mask registers, add_resource x 2, those inside Monitor / Multiplexer, and the
+   final `self.bus.memory_map = self._mux.bus.memory_map` *)
+Theorem tie_evmon_ports : forall em t d al,
+  rmap (fun c => (absd (csr_event_EventMonitor_ports c), csr_attr (csr_event_EventMonitor_port_bus c),
+                  src_attr (csr_event_EventMonitor_port_src c)))
+       (gen_csr_event_EventMonitor_init em t (VInt d) (VInt al) None None None None None) =
+  match evmon_ports (event_EventMap_size em) d al (trg_arg t) with
+  | MW.Ok ps => evmon_view ps
+  | MW.Err e => Err (cv_exn e)
+  end.
+Proof.
+  intros em t d al. unfold gen_csr_event_EventMonitor_init, evmon_ports. cbn [is_int zof negb orb].
+  set (n := event_EventMap_size em).
+  destruct (d <=? 0) eqn:Pd; [reflexivity|]. destruct (al <? 0) eqn:Pa; [reflexivity|].
+  pose proof (tie_monitor_ports em t None) as X. fold n in X.
+  destruct (gen_event_Monitor_init em t None) as [mc|e]; cbn [rmap bind] in *.
+  2:{ destruct (monitor_src _); [discriminate X|]. injection X as ->. reflexivity. }
+  destruct (monitor_src (trg_arg t)) as [ps|e] eqn:Ms; [|discriminate X].
+  apply Ok_inj, pair_inj in X. destruct X as [_ Xs].
+  cbv zeta. cbn [opaque_step bind MW.bind].
+  set (aw := 1 + Z.max (ceil_log2 ((n + d - 1) / d)) al).
+  change (evmon_addr_width n d al) with aw.
+  assert (Paw : 0 < aw) by (pose proof (ceil_log2_nonneg ((n + d - 1) / d)); lia).
+  destruct (mm_init_ok (VInt aw) (VInt d) (VInt al)) as (m & Hm & M1 & M2 & _).
+  { unfold mm_bad. cbn [is_int zof negb orb]. lia. }
+  rewrite Hm. cbn [bind].
+  pose proof (tie_mux_ports m None) as Y. rewrite M1, M2 in Y. cbn [zof] in Y.
+  destruct (gen_csr_Multiplexer_init m None) as [xc|e]; cbn [rmap bind] in *.
+  2:{ destruct (mux_bus aw d); [discriminate Y|]. injection Y as ->. reflexivity. }
+  destruct (mux_bus aw d) as [pm|e] eqn:Mx; [|discriminate Y]. cbn [cv] in Y.
+  apply Ok_inj, pair_inj in Y. destruct Y as [_ Ym]. cbn [MW.bind].
+  (* what the two inner ports are *)
+  apply mux_bus_ok in Mx. subst pm.
+  unfold monitor_src in Ms. destruct (mk_src (trg_arg t)) as [ss|e] eqn:Ks; cbn [MW.bind] in Ms; [|discriminate Ms].
+  injection Ms as <-. unfold mk_src in Ks. destruct (trg_arg t) as [t'|]; [|discriminate Ks]. injection Ks as <-.
+  unfold src_attr in Xs. cbn [signature_of_port OUT p_flow p_sig base] in Xs. apply pair_inj in Xs. destruct Xs as [Fs As].
+  unfold csr_attr in Ym. cbn [signature_of_port IN p_flow p_sig base flip fst snd negb] in Ym.
+  apply pair_inj in Ym. destruct Ym as [Fm Am].
+  destruct (src_create_abs _ _ As) as (ys & Cs & Ays). rewrite Cs. cbn [bind].
+  destruct (csr_create_abs _ _ _ Am Paw ltac:(lia)) as (yb & Cb & Ayb). rewrite Cb. cbn [bind rmap].
+  unfold evmon_view, absd, absm, csr_attr, src_attr.
+  cbn [map fst snd pm_body pm_flow pm_dims m_in m_out flow_of abs
+       csr_event_EventMonitor_ports csr_event_EventMonitor_port_bus csr_event_EventMonitor_port_src
+       csr_Interface_signature event_Source_signature signature_of_port IN OUT p_flow p_sig base flip].
+  rewrite Fs, Fm, As, Am, Ays, Ayb. reflexivity.
+Qed.
+Print Assumptions tie_evmon_ports.
